@@ -1,8 +1,8 @@
 INIT Init
 NEXT Next
 CONSTANTS
-  Sigs = {1, 2, 8, 15, 16, 17}
-  Exps = {-324, -323, -310, -300, -100, -20, -8, -7, -6, -5, -4, -3, -2, -1, 0, 1, 5, 14, 15, 16, 17, 18, 19, 20, 21, 22, 100, 300, 308}
-  Pats = {"mixed", "nines", "ones"}
+  Sigs <- SigsFull
+  Exps <- ExpsFull
+  Pats <- PatsFull
 CONSTRAINT Emit
 CHECK_DEADLOCK FALSE
